@@ -1,4 +1,4 @@
-import BqVerif.Proofs.CrashRes
+import BqVerif.Proofs.CrashDown
 /-
 C14 - a crashed worker or manager unblocks every waiting client with an error.
 
@@ -156,6 +156,31 @@ theorem C14_clients_unblocked {t : Topo} (wf : t.WF) {s sf : State} (hs : Reach 
   · obtain ⟨s', a, _, e, _⟩ := h2 hw r hr
     exact ⟨s', a, e⟩
 
+/-- **SHUTDOWN reaches the employees** (the partial form of "the rest of the runtime shuts
+down"; the full form fails for sub-managers of a *crashed* manager, see the witness below).
+Whenever a node `p` has stopped (it ran `handle_shutdown`) and its employee `e` is still alive
+and running, a SHUTDOWN is pending in `e`'s channel from `p`, and `e`'s reader of that channel
+(`Worker.recv_incoming` / the manager's run loop on `upstream`) is enabled; reading SHUTDOWN
+stops `e` (by the model's `wrecv` / `recvUp`), which then holds for `e`'s own employees. -/
+theorem C14_shutdown_reaches_employees {t : Topo} (wf : t.WF) {s : State} (hs : Reach t s) {p e : Nat}
+    (hc : t.isChild p e = true) (hr : s.running p = false) (he : s.gone e = false) :
+    Msg.shutdown ∈ s.inbox e ∧
+    (t.kind e = .worker → ∃ s', step t s (.wrecv e) = some s') ∧
+    (t.kind e ≠ .worker → ∃ s', step t s (.recvUp e [] false) = some s') := by
+  have hi := hs.inv wf
+  obtain ⟨ls, hrun⟩ := hs
+  have hj := run_jinv wf ls init s (jinv_init t) (inv_init t) hrun
+  have hsent : s.sentShutdown e = true := by
+    rcases hi.sent p e hc hr with x | x
+    · exact x
+    · have : s.gone e = true := x
+      rw [he] at this; cases this
+  obtain ⟨he0, hen, _⟩ := isChild_iff.mp hc
+  rcases hj e hsent with x | ⟨x, y⟩
+  · have : s.gone e = true := x
+    rw [he] at this; cases this
+  · exact ⟨x, reader_enabled hen he0 he x y⟩
+
 /-- **a second crash changes nothing**: it keeps the invariant, does not raise the bound of
 the reaction to the first crash, and touches nothing a client or the server's tables can
 see; in particular a finished reaction stays finished. -/
@@ -262,6 +287,9 @@ example : ShutDone demoTopo demoDown 0 :=
 -- C14_no_result_after_shutdown / C14_client_raises: the server of `demoDown` is down, the client blocked
 example : demoDown.running 0 = false ∧ demoDown.cwait 0 = true := by decide
 example : (step demoTopo demoDown (.cwake 0)).map (·.clog) = some [.raised 0] := by decide
+-- C14_shutdown_reaches_employees: in `demoState` after the manager stopped, worker 3 has SHUTDOWN pending
+example : ((run demoTopo demoState [.recvEmp 1 2 [] false]).map
+    (fun s => (s.running 1, s.gone 3, s.inbox 3))) = some (false, false, [.shutdown]) := by decide
 -- C14_second_crash: a second crash is possible in `demoDown`
 example : (step demoTopo demoDown (.crash 1 false)).isSome = true := by decide
 
